@@ -460,6 +460,42 @@ func f6Definitions() []BashCase {
 	return cases
 }
 
+// F7: compound assignment x right-hand side shape. "x op= e" is "x = x op (e)": the right-hand side is one
+// operand whatever operators it contains itself.
+func f7CompoundAssign() []BashCase {
+	cases := []BashCase{}
+	a, b := vr("a"), vr("b")
+	rhs := []struct {
+		name string
+		e    Expr
+	}{
+		{"sum", bin("+", a, b)}, {"difference", bin("-", a, b)}, {"product", bin("*", a, b)}, {"quotient", bin("/", a, b)}, {"remainder", bin("%", a, b)},
+		{"negative-literal", il(-3)}, {"minus-negative", bin("-", a, il(-2))}, {"group", Group{bin("-", a, b)}}, {"three-terms", bin("-", bin("-", a, b), il(1))}, {"mixed", bin("+", bin("*", a, il(2)), b)},
+		{"call", call("idf", bin("-", a, b))}, {"len", Len{sl("abc")}}, {"variable", b}, {"literal", il(4)},
+	}
+	for _, op := range []string{"+", "-", "*", "/", "%"} {
+		for _, r := range rhs {
+			stmts := []Stmt{fn("idf", []Param{{"p", TInt}}, []Type{TInt}, ret(vr("p"))), def("a", il(7)), def("b", il(3)), def("x", il(100)), OpAssign{"x", op, r.e}, pr(vr("x")),
+				// the same in a loop post statement, in a function on a global, and twice in a row
+				def("y", il(50)), For{Kind: ForThree, Init: def("i", il(0)), Cond: cmp("<", vr("i"), il(2)), Post: IncDec{"i", true}, Body: []Stmt{OpAssign{"y", op, r.e}}}, pr(vr("y")),
+				fn("upd", nil, nil, OpAssign{"x", op, r.e}), callS("upd"), pr(vr("x")),
+			}
+			cases = append(cases, BashCase{Key: "F7/" + op + "=/" + r.name, Prog: SingleFile(stmts)})
+		}
+	}
+	// strings: += with concatenations on the right
+	cases = append(cases, BashCase{Key: "F7/string-concat", Prog: SingleFile([]Stmt{def("s", sl("a")), def("t", sl("b")), OpAssign{"s", "+", bin("+", vr("t"), sl("c"))}, OpAssign{"s", "+", bin("+", bin("+", vr("s"), sl("-")), vr("t"))}, pr(vr("s"))})})
+	// loop post statement of every form
+	for _, op := range []string{"+", "-", "*"} {
+		init, cond, step := int64(1), cmp("<", vr("i"), il(40)), bin("+", il(1), il(1))
+		if op == "-" {
+			init, cond = 40, cmp(">", vr("i"), il(0))
+		}
+		cases = append(cases, BashCase{Key: "F7/for-post/" + op, Prog: SingleFile([]Stmt{For{Kind: ForThree, Init: def("i", il(init)), Cond: cond, Post: OpAssign{"i", op, step}, Body: []Stmt{pr(vr("i"))}}, pr(sl("end"))})})
+	}
+	return cases
+}
+
 func c01Families(c *Check) []BashCase {
 	cases := []BashCase{}
 	cases = append(cases, f1OperatorChains(2, c.Thorough())...)
@@ -469,6 +505,7 @@ func c01Families(c *Check) []BashCase {
 	cases = append(cases, f4LoopSkeletons(c.Thorough())...)
 	cases = append(cases, f5Switch()...)
 	cases = append(cases, f6Definitions()...)
+	cases = append(cases, f7CompoundAssign()...)
 	if c.Thorough() {
 		cases = append(cases, f1OperatorChains(3, true)...)
 	}
